@@ -397,12 +397,24 @@ def run(ctx):
             v = body[0].value
             if name == "__contains__":
                 p = m.params[1] if len(m.params) > 1 else "?"
-                if txt(v) in (f"{p} in {selfM}", f"{p} in {selfL}", f"{selfM}.get({p}) is not None", f"{selfM}.get({p}, None) is not None"):
+                if txt(v) in (f"{p} in {selfM}", f"{p} in {selfL}", f"{selfM}.get({p}) is not None", f"{selfM}.get({p}, None) is not None",
+                              f"{p} in {selfM}.keys()", f"{selfM}.__contains__({p})", f"{p} in set({selfM})", f"{p} in set({selfL})"):
                     o.holds(m, v, what)
                 elif txt(v) in (f"{selfM}.get({p})", f"bool({selfM}.get({p}))", f"{selfM}.get({p}, False)", f"bool({selfM}.get({p}, False))"):
                     o.violated(m, v, f"`{txt(v)}` is the TRUTH of the stored position: the element in slot 0 (position 0) tests as absent", shape_free=True)
                 elif txt(v) in (f"{p} not in {selfM}", f"{p} not in {selfL}"):
                     o.violated(m, v, "membership test is negated")
+                elif isinstance(v, ast.Compare) and len(v.ops) == 1 and isinstance(v.ops[0], ast.In) and txt(v.comparators[0]) in (selfM, selfL, f"{selfM}.keys()") \
+                        and txt(v.left) != p and p in astx.names_in(v.left):
+                    # the element is looked up under a RE-WRITTEN key; `add` decides what the stored keys look like
+                    addm = prog.method(ci, "add")
+                    akeys = [txt(n.targets[0].slice).replace(addm.params[1], p) for n in astx.walk_fn(addm.node) if isinstance(n, ast.Assign) and len(n.targets) == 1
+                             and isinstance(n.targets[0], ast.Subscript) and txt(n.targets[0].value) == selfM] if addm is not None and len(addm.params) > 1 else []
+                    if akeys and all(k_ == txt(v.left) for k_ in akeys):
+                        o.undecided(f"members are stored and looked up under `{txt(v.left)}`; whether draw / remove use the same key is not decided", m, v)
+                    else:
+                        o.violated(m, v, f"membership looks the element up under `{txt(v.left)}`, but `add` stores it under the element itself: an element whose re-written form "
+                                         "differs from it tests as absent (or one that was never added tests as present, and `remove` then fails)", shape_free=True)
                 else:
                     o.undecided(f"`{txt(v)}` not recognised", m, v)
             elif name == "draw":
@@ -438,7 +450,20 @@ def run(ctx):
                 else:
                     o.undecided(f"`{txt(v)}` not recognised", m, v)
             else:
-                if txt(v) in accepted:
+                gi = v.args[0] if name == "__iter__" and isinstance(v, ast.Call) and txt(v.func) == "iter" and len(v.args) == 1 else v
+                if name == "__iter__" and isinstance(gi, (ast.GeneratorExp, ast.ListComp)) and len(gi.generators) == 1 and txt(gi.generators[0].iter) in (selfL, selfM) \
+                        and isinstance(gi.generators[0].target, ast.Name) and txt(gi.elt) == gi.generators[0].target.id and gi.generators[0].ifs:
+                    ev_ = gi.generators[0].target.id
+                    truthy = [c_ for c_ in gi.generators[0].ifs if txt(c_) in (f"{selfM}.get({ev_})", f"{selfM}[{ev_}]", f"bool({selfM}.get({ev_}))", f"{selfM}.get({ev_}, 0)", f"{selfM}.get({ev_}, False)")]
+                    always = [c_ for c_ in gi.generators[0].ifs if txt(c_) in (f"{ev_} in {selfM}", f"{ev_} in {selfM}.keys()", f"{selfM}.get({ev_}) is not None")]
+                    if truthy:
+                        o.violated(m, truthy[0], f"iteration keeps a member only when `{txt(truthy[0])}` is TRUE, i.e. its stored position is not 0: the member in slot 0 is never "
+                                                 "iterated (len() and iteration disagree)", shape_free=True)
+                    elif len(always) == len(gi.generators[0].ifs):
+                        o.holds(m, v, what + " (the filter is true for every member)")
+                    else:
+                        o.undecided(f"`{txt(v)[:70]}` filters the members", m, v)
+                elif txt(v) in accepted:
                     o.holds(m, v, what)
                 else:
                     tv = rules.term_of(v)
